@@ -201,6 +201,54 @@ func genStore(tier string, seed uint64) {
 	}
 }
 
+// C09 on the wire: boundary integers as CBOR heads (every width) and JSON texts into every numeric kind
+func genNumBytes(tier string, seed uint64) {
+	emitDefs()
+	nums := []reflect.Type{}
+	for _, v := range []interface{}{int8(0), uint8(0), int16(0), uint16(0), int32(0), uint32(0), int64(0), uint64(0), int(0), uint(0),
+		float64(0), MyI8(0), MyU16(0), (*int64)(nil), []int64{}} {
+		nums = append(nums, reflect.TypeOf(v))
+	}
+	nums = append(nums, reflect.TypeOf((*interface{})(nil)).Elem())
+	var args []uint64
+	for _, k := range []uint{0, 1, 4, 5, 7, 8, 15, 16, 31, 32, 52, 53, 62, 63} {
+		for _, d := range []int64{-2, -1, 0, 1} {
+			args = append(args, uint64(1)<<k+uint64(d))
+		}
+	}
+	args = append(args, 23, 24, 1<<64-1, 1<<64-2, 1<<63+1<<62)
+	for _, t := range nums {
+		wrap := func(hx string) string {
+			if t.Kind() == reflect.Slice {
+				return "82" + hx + hx
+			}
+			return hx
+		}
+		for _, n := range args {
+			for _, major := range []byte{0x00, 0x20} {
+				for _, w := range []int{0, 8} {
+					emit("unmbytes cbor 1 %d %s", tid(t), wrap(fmt.Sprintf("%x", headBytes(major, n, w))))
+				}
+			}
+			if t.Kind() == reflect.Slice {
+				continue
+			}
+			emit("unmbytes json 1 %d %x", tid(t), fmt.Sprint(n))
+			emit("unmbytes json 1 %d %x", tid(t), "-"+fmt.Sprint(n))
+			if n < 1<<63 {
+				emit("unmbytes json 1 %d %x", tid(t), fmt.Sprint(n)+".0")
+				emit("unmbytes json 1 %d %x", tid(t), fmt.Sprint(n)+"e0")
+			}
+		}
+		if t.Kind() != reflect.Slice {
+			for _, s := range []string{"18446744073709551616", "-9223372036854775809", "-18446744073709551616", "1e19", "1e3", "-1e3", "12e-1", "0.5",
+				"-0", "-0.0", "1E2", "9007199254740993", "9223372036854775807.5", "1e400", "123456789012345678901234567890"} {
+				emit("unmbytes json 1 %d %x", tid(t), s)
+			}
+		}
+	}
+}
+
 func permutations(xs []string, f func([]string)) {
 	var rec func(k int)
 	rec = func(k int) {
@@ -273,6 +321,24 @@ func genOrder(tier string, seed uint64) {
 			}
 		})
 	}
+	// a named map type with its own morphism next to a plain map in one struct: each map follows its own configuration
+	for _, aid := range []int{1, 2, 3} {
+		for _, ks := range keySets {
+			m := func(rot int) string {
+				var parts []string
+				for i := range ks {
+					k := ks[(i+rot)%len(ks)]
+					parts = append(parts, fmt.Sprintf("s%s=i%d", hx(k), i))
+				}
+				return "M{" + strings.Join(parts, ",") + "}"
+			}
+			for rep := 0; rep < 2; rep++ {
+				emit("marshal %d %d 0 S(%s,%s,%s)", aid, tid(reflect.TypeOf(TwoMaps{})), m(0), m(1), m(2))
+				emit("marshal %d %d 0 S(n,%s,%s)", aid, tid(reflect.TypeOf(TwoMaps{})), m(1), m(0))
+				emit("marshal %d %d 0 S(%s,%s,n)", aid, tid(reflect.TypeOf(TwoMaps{})), m(2), m(0))
+			}
+		}
+	}
 	// autogenerated structs under the three field-sort modes
 	for _, aid := range []int{1, 2, 3} {
 		for _, t := range []reflect.Type{reflect.TypeOf(Nums{}), reflect.TypeOf(OmitAll{}), reflect.TypeOf(Tagged{}), reflect.TypeOf(WithPtr{})} {
@@ -280,6 +346,32 @@ func genOrder(tier string, seed uint64) {
 				emit("marshal %d %d 0 %s", aid, tid(t), genValue(r, t, genOpts{depth: 2}))
 			}
 		}
+	}
+}
+
+// the same struct types autogenerated under the three field-sort modes in every sequence of modes
+// (a mapping must not depend on which modes were asked for earlier)
+func genSortModes(tier string, seed uint64) {
+	emitDefs()
+	modes := []string{"default", "strings", "rfc7049"}
+	var ts []reflect.Type
+	for _, v := range []interface{}{Inner{}, WithPtr{}, Emb{}, Rec{}, Tagged{}, OmitAll{}, Nums{}, HasShape{}, TwoMaps{}, MapKeyed{}} {
+		ts = append(ts, reflect.TypeOf(v))
+	}
+	for k, fam := range shapeFamilies {
+		if k%8 == 0 || tier == "thorough" {
+			ts = append(ts, fam.all...)
+		}
+	}
+	for i, t := range ts {
+		permutations(append([]string{}, modes...), func(p []string) {
+			if i%6 != 0 && tier != "thorough" && p[0] != modes[i%3] {
+				return
+			}
+			for _, m := range p {
+				emit("autogen %d %s", tid(t), m)
+			}
+		})
 	}
 }
 
@@ -323,7 +415,8 @@ func genHist(tier string, seed uint64) {
 	}
 	types := []reflect.Type{}
 	for _, v := range []interface{}{int(0), "", []int{}, map[string]int{}, Inner{}, WithPtr{}, Emb{}, Rec{}, Tagged{}, OmitAll{}, Nums{}, HasShape{},
-		TrNum(0), KeyStruct{}, MapKeyed{}, NoAtlas{}, HasNoAtlas{}, []byte{}, StrMap{}} {
+		TrNum(0), KeyStruct{}, MapKeyed{}, NoAtlas{}, HasNoAtlas{}, []byte{}, StrMap{}, map[string]NoAtlas{}, map[string][]NoAtlas{},
+		[]map[string]int{}, map[string]interface{}{}, TwoMaps{}, TrSq{}} {
 		types = append(types, reflect.TypeOf(v))
 	}
 	types = append(types, reflect.TypeOf((*interface{})(nil)).Elem())
